@@ -23,6 +23,16 @@ class Infra(Exception):
     pass
 
 
+class LibraryCrash(Infra):
+    """the harness process was killed by a panic on a goroutine started by the library (see library_crash)"""
+    def __init__(self, what, report):
+        Infra.__init__(self, what)
+        self.what, self.report = what, report
+
+
+CURRENT_REPORT = None
+
+
 def seed():
     try:
         return int(os.environ.get('VERIF_SEED', '1'))
@@ -92,6 +102,9 @@ def run_harness(args, race=False, timeout=1800, env=None, stdin=None, check=True
     e.update(env or {})
     p = subprocess.run([binp] + list(args), capture_output=True, text=True, timeout=timeout, env=e, input=stdin)
     if check and p.returncode not in (0,):
+        crash = library_crash(p)
+        if crash is not None:
+            raise LibraryCrash('%s' % ' '.join(str(a) for a in args[:1]), crash)
         sys.stderr.write(p.stdout[-4000:] + p.stderr[-8000:])
         raise Infra('harness %s exited %d' % (args[:2], p.returncode))
     return p
@@ -240,6 +253,8 @@ class Report:
     """Collects coverage, violations and known findings of one check run and writes the evidence file."""
 
     def __init__(self, pid, level, argv=None):
+        global CURRENT_REPORT
+        CURRENT_REPORT = self
         self.pid = pid
         self.level = level
         self.tier = tier(argv)
@@ -338,6 +353,16 @@ class Report:
 def main_wrapper(fn):
     try:
         rc = fn()
+    except LibraryCrash as e:
+        # real-code behaviour, not an infrastructure failure: the library panicked on a goroutine of its own and took the process down while
+        # this property was being checked (nothing can recover such a panic; the property could not be observed to hold)
+        rep = CURRENT_REPORT
+        if rep is None:
+            print('INFRA-FAILURE: %s' % e)
+            sys.exit(2)
+        rep.add_violation('crash', 'the library panicked on a goroutine of its own while the driver %s was running: the process died' % e.what,
+                          replay_obj=dict(kind='crash', driver=e.what, report=e.report), components=['process'])
+        rc = rep.finish()
     except Infra as e:
         print('INFRA-FAILURE: %s' % e)
         sys.exit(2)
